@@ -128,6 +128,13 @@ func c12Pipeline(c *wk.Case) (string, string) {
 		{"try " + src + ".iir(y->y,(y,l)->hpanic2(y,35)+l).size() catch 0", "par-consumer-panics-iir"},
 		{"[func r(y) r(y+1); try " + src + ".reduce((p,q)->if q>=40 then r(q) else p+q) catch 0][0]", "par-consumer-recursion-guard"},
 		{"try " + src + ".map(y->hpanic2(y,45)).sum() catch 0", "par-second-map-panics"},
+		// a stage in FRONT of a parallel stage panics after the switch to workers; a source that keeps failing
+		{"try numbers(300).number((i,x)->hpanic2(x,40)).map(x->delay(tick(0,x),250)).size() catch 0", "par-upstream-panics"},
+		{"[func r(y) r(y)+1; try numbers(300).compact((p,q)->if p>30 then r(p)=q else false).map(x->delay(tick(0,x),250)).size() catch 0][0]", "par-upstream-recursion-guard"},
+		{"try numbers(300).iir(y->y,(y,l)->hpanic2(y,40)+l*0).accept(x->delay(tick(0,x),250)>=0).size() catch 0", "par-accept-upstream-panics"},
+		{"try numbers(2000000000).map(x->x.foo).merge([1,2,3],(a,b)->a<b).size() catch 0", "merge-source-fails-persistently"},
+		{"try [1,2,3].merge(numbers(2000000000).map(x->failAt(x,x)),(a,b)->a<b).size() catch 0", "merge-second-source-fails-persistently"},
+		{"try numbers(2000000000).map(x->x.foo).multiUse({u:l->l.size(),v:l->l.first()}).string() catch 0", "multiUse-source-fails-persistently"},
 		// misuse: the call is rejected after some of its goroutines may have been started
 		{"try numbers(10).multiUse({a:l->l.reduce((a,b)->a+b), b:3}) catch 0", "multiUse-rejected-not-a-function"},
 		{"try numbers(10).multiUse({a:l->l.sum(), b:l->l.size(), c:(x,y)->x}) catch 0", "multiUse-rejected-arity"},
